@@ -2,7 +2,7 @@
 """Runs gaddlemaps._cli.sort_molecules for a list of jobs in THIS interpreter
 (started by the C20 check under a chosen PYTHONHASHSEED) and prints the results
 as JSON.  usage: discover.py <repo root> <jobs.json>
-jobs: [{"ref": path, "files": [paths in listing order], "known": [[cg.itp, aa.gro, aa.itp], ...]}]"""
+jobs: [{"ref": path, "files": [paths in listing order], "known": [[cg.itp, aa.gro, aa.itp], ...], "cwd": dir or null}]"""
 import contextlib
 import io
 import json
@@ -21,8 +21,10 @@ assert os.path.realpath(gaddlemaps.__file__).startswith(os.path.realpath(repo) +
 with open(jobs_path) as f:
     jobs = json.load(f)
 out = []
+home = os.getcwd()
 for job in jobs:
     buf = io.StringIO()
+    os.chdir(job.get("cwd") or home)
     try:
         with contextlib.redirect_stdout(buf), warnings.catch_warnings():
             warnings.simplefilter("ignore")
